@@ -54,7 +54,11 @@ static std::string stretched(Rng& r, int flavour) {
     case 0: for (int i = 0; i < n; i++) s += (char)('a' + (i * 7) % 26); break;                              // plain
     case 1: for (int i = 0; i + 3 <= n; i += 3) s += (i % 9 == 0) ? "%7e" : (i % 9 == 3 ? "%C3" : "%a9"); break;   // percent triplets
     case 2: for (int i = 0; i < n; i++) s += (i % 2) ? '.' : (char)('A' + i % 26); break;                      // labels / dots, upper case
-    default: for (int i = 0; i < n; i++) s += (char)('0' + i % 10); break;                                     // digits
+    case 3: for (int i = 0; i < n; i++) s += (char)('0' + i % 10); break;                                     // digits
+    default: {   // scheme-like run with the one character that matters (':') far from the start
+        int at = r.pick(std::vector<int>{62, 63, 64, 65, 127, 128, 255, 256, 300}); if (at >= n) at = n - 1;
+        for (int i = 0; i < n; i++) s += i == at ? ':' : (char)('a' + (i * 5) % 26);
+        break; }
     }
     return s;
 }
@@ -87,7 +91,7 @@ std::string uri_text(Rng& r, const TextCfg& c) {
         for (int i = 0; i < sp; i++) segs.push_back(r.pick(kSpecialSegs));
         if (r.chance(400)) segs.push_back(r.pick(kSegs));
     } else for (int i = 0; i < nseg; i++) segs.push_back(r.chance(60) ? r.pick(kSpecialSegs) : r.pick(kSegs));
-    if (stretch == 3) { if (segs.empty()) segs.push_back(""); segs[r.below((uint32_t)segs.size())] = stretched(r, r.range(0, 2)); }
+    if (stretch == 3) { if (segs.empty()) segs.push_back(""); segs[r.below((uint32_t)segs.size())] = stretched(r, r.chance(300) ? 4 : r.range(0, 2)); }
     if (auth) {
         for (auto& sg : segs) t += "/" + sg;
     } else if (!segs.empty()) {
@@ -256,7 +260,10 @@ void query_items(Rng& r, Op& mk, int max_items, int max_len) {
     for (int i = 0; i < n; i++) {
         auto mkstr = [&]() {
             std::string s; int parts = r.range(0, 3);
-            if (r.chance(12)) { int n = r.chance(200) ? r.pick(std::vector<int>{255, 256, 1023, 1024, 1025, 1400}) : r.range(180, 420); for (int k = 0; k < n; k++) s += (k % 97 == 96) ? ' ' : (char)('a' + k % 26); return s; }   // rarely: long, mostly unescaped text
+            if (r.chance(12)) { int n = r.chance(200) ? r.pick(std::vector<int>{255, 256, 1023, 1024, 1025, 1400}) : r.range(180, 420); for (int k = 0; k < n; k++) s += (k % 97 == 96) ? ' ' : (char)('a' + k % 26);
+                // line breaks sitting on the block boundaries a chunked implementation would use
+                if (r.chance(500)) { static const int at[] = {15, 16, 31, 32, 63, 64, 127, 128, 255, 256, 511, 512, 1023, 1024}; int nb = r.range(1, 3); for (int b = 0; b < nb; b++) { int pos = at[r.below(14)] - (int)r.below(2); if (pos + 1 < (int)s.size() && pos >= 0) { s[(size_t)pos] = '\r'; if (r.chance(700)) s[(size_t)pos + 1] = '\n'; } } }
+                return s; }   // rarely: long, mostly unescaped text
             for (int k = 0; k < parts; k++) {
                 if (r.chance(150)) s += (char)r.range(1, 255); else s += r.pick(kQParts);
             }
